@@ -607,6 +607,45 @@ func ruleOperatorBinding(c *eng.Ctx) {
 				}
 			}
 			if found == nil {
+				// a group of operators handed to a helper that dispatches on the operator again
+				isOperator := func(v ssa.Value) bool {
+					if fr, ok := eng.LoadOfField(v); ok && fr.Field == "Operator" {
+						return true
+					}
+					if f, ok := v.(*ssa.Field); ok {
+						if fr, ok := eng.AsField(f); ok && fr.Field == "Operator" {
+							return true
+						}
+					}
+					return false
+				}
+				for _, hc := range eng.Calls(fn, false, func(string, ssa.CallInstruction) bool { return true }) {
+					h := eng.StaticCallee(hc)
+					if h == nil || h.Blocks == nil || h.Pkg != fn.Pkg || h == fn || found != nil {
+						continue
+					}
+					var wanted []ssa.CallInstruction
+					for _, call := range eng.Calls(h, false, func(n string, ci ssa.CallInstruction) bool {
+						return strings.HasSuffix(n, ")."+sp.callee) && strings.Contains(n, "GraphicsState")
+					}) {
+						wanted = append(wanted, call)
+					}
+					if len(wanted) == 0 {
+						continue
+					}
+					// the helper is reached for this operator, and inside it this operator reaches the transformer
+					if !eng.StrReach(fn, []string{sp.op}, isOperator, nil, func(in ssa.Instruction) bool { return in == ssa.Instruction(hc) })[sp.op] {
+						continue
+					}
+					for _, call := range wanted {
+						call := call
+						if eng.StrReach(h, []string{sp.op}, isOperator, nil, func(in ssa.Instruction) bool { return in == ssa.Instruction(call) })[sp.op] && found == nil {
+							found = call
+						}
+					}
+				}
+			}
+			if found == nil {
 				// dispatched through a read-only table operator -> setter, called on the looked-up entry
 				found = tableDispatchCall(p, fn, sp.op, sp.callee)
 			}
@@ -614,7 +653,10 @@ func ruleOperatorBinding(c *eng.Ctx) {
 				c.Viol(R, key, fn.Pos(), fmt.Sprintf("operator %q does not reach GraphicsState.%s", sp.op, sp.callee))
 				continue
 			}
-			args := found.Common().Args[1:]
+			args := found.Common().Args
+			if !found.Common().IsInvoke() && len(args) > 0 {
+				args = args[1:] // the receiver
+			}
 			bad := ""
 			for i, want := range sp.args {
 				if i >= len(args) {
